@@ -52,7 +52,7 @@ class MultinomialDistribution:
             self._shape = shape
 
         self._ps = ps
-        self._eps_zero = eps_zero if eps_zero else 1e-8
+        self._eps_zero = 1e-8 if eps_zero is None else eps_zero
 
         # adjust probability distribution
         self._is_zero_dist = True
